@@ -159,6 +159,16 @@ def rsa_mixed_batch(rng, size, slow_budget=1, kinds=None, with_healthy=True):
     arts.append({'n': pr, 'e': 65537, 'kind': 'prime', 'p': None, 'q': None})
     arts.append({'n': pr * rng.prime(128), 'e': 65537,
                  'kind': 'multiple-of-neighbour-prime', 'p': None, 'q': None})
+  if size >= 3 and rng.chance(1, 3):
+    # a modulus whose two primes are shared with two *different* neighbours:
+    # it divides the product of the others but no single one of them.
+    pp = [rng.prime(rng.choice([128, 256, 512])) for _ in range(4)]
+    arts.append({'n': pp[0] * pp[1], 'e': 65537, 'kind': 'covered-by-product',
+                 'p': pp[0], 'q': pp[1]})
+    arts.append({'n': pp[0] * pp[2], 'e': 65537, 'kind': 'shares-p',
+                 'p': pp[0], 'q': pp[2]})
+    arts.append({'n': pp[1] * pp[3], 'e': 65537, 'kind': 'shares-q',
+                 'p': pp[1], 'q': pp[3]})
   rng.shuffle(arts)
   return arts
 
